@@ -4,6 +4,7 @@ CONSTANTS
   MaxLen = 7
   MaxTop = 3
   WordMod = 0
+  ScanWraps = FALSE
 INVARIANT BlastAgrees
 INVARIANT BlastPrefix
 INVARIANT Framed
